@@ -1,12 +1,13 @@
 """C09 - lazily tracked fermionic signs are unobservable."""
 from harness import gen
-from harness.drivers import lazy
+from harness.drivers import lazy, linalg_drv
 
 
 def run(ck):
     q = ck.tier == "quick"
     tids = gen.Tids()
     progs = lazy.programs(ck.seed, 80 if q else 1500, tids=tids)
+    progs += linalg_drv.lazy_linalg_programs(ck.seed, 40 if q else 600, tids=tids)
     ck.cov["rule"] = ("random fermionic arrays with pending signs produced by phase_flip / phase_transpose / phase_global / conj / "
                       "transpose prefixes; every operation applied to the lazy array and to its synchronised copy, results "
                       "required to denote the same tensor / scalar / dense array; sync idempotent and sign applied exactly once")
